@@ -5,7 +5,9 @@
 (* discarded (oplog-valid flag false: the node asks for a full             *)
 (* resynchronisation), or every record still in the log decodes, through   *)
 (* the restarted node's identifier maps, to the database and key it was    *)
-(* written for.  No two databases share an identifier.                     *)
+(* written for.  No two databases share an identifier.  The same holds for *)
+(* the identifier maps of the RUNNING node after every create-db, accepted *)
+(* or refused (check kind "live").                                         *)
 (***************************************************************************)
 EXTENDS Integers, Sequences, FiniteSets, TLC, Json, IOUtils
 
@@ -32,15 +34,26 @@ CheckOK ==
 
 (* known finding: database identifiers are the number of databases at creation; a restart *)
 (* that restores only the snapshotted ones leaves log records whose database is unknown   *)
-(* (or, after a new create-db, belongs to another database) while the log stays valid     *)
-UnknownOrWrongDb(r) == \E i \in DOMAIN E.intents :
-                         E.intents[i][1] = r[1] /\ E.intents[i][3] = r[3] /\ E.intents[i][2] # r[2]
+(* (or, after a new create-db, belongs to another database) while the log stays valid.    *)
+(* Narrowly: a record written for database D may decode to nothing or to another database *)
+(* X only if D is no longer a database of the node (it was never snapshotted and vanished *)
+(* with the restart) and X is the database that now carries the record's identifier; or   *)
+(* if D and X are both databases of the node and carry the same identifier (second        *)
+(* manifestation below).  A record of a database the node still has, decoding to another  *)
+(* database with another identifier, is not this finding.                                 *)
+HasDb(d) == d \in DOMAIN E.dec.dbids
+ExplainedByIdFromCount(r) == \E i \in DOMAIN E.intents :
+    /\ E.intents[i][1] = r[1] /\ E.intents[i][3] = r[3] /\ E.intents[i][2] # r[2]
+    /\ LET D == E.intents[i][2] IN
+       \* (D vanished: no database of that name, or the database of that name is a later one with another identifier)
+       \/ (IF HasDb(D) THEN E.dec.dbids[D] # r[5] ELSE TRUE) /\ (r[2] = "-" \/ (HasDb(r[2]) /\ E.dec.dbids[r[2]] = r[5]))
+       \/ HasDb(D) /\ HasDb(r[2]) /\ E.dec.dbids[D] = E.dec.dbids[r[2]]
 Dev_DbIdFromCount ==
   /\ "Dev_DbIdFromCount" \in Devs
   /\ E.ev = "check" /\ E.dec.start = "ok" /\ E.dec.valid
   /\ IdsDistinct = TRUE
   /\ DecodesRight = FALSE
-  /\ (\A i \in DOMAIN E.dec.records : Intended(E.dec.records[i]) \/ UnknownOrWrongDb(E.dec.records[i])) = TRUE
+  /\ (\A i \in DOMAIN E.dec.records : Intended(E.dec.records[i]) \/ ExplainedByIdFromCount(E.dec.records[i])) = TRUE
   /\ used' = used \cup {"Dev_DbIdFromCount"}
 
 (* the same finding, other manifestation: two databases carry the same identifier.  An identifier *)
@@ -53,7 +66,7 @@ Dev_DbIdFromCount_Shared ==
   /\ E.ev = "check" /\ E.dec.start = "ok"
   /\ IdsDistinct = FALSE
   /\ (E.dec.valid => \A i \in DOMAIN E.dec.records :
-                        Intended(E.dec.records[i]) \/ UnknownOrWrongDb(E.dec.records[i])) = TRUE
+                        Intended(E.dec.records[i]) \/ ExplainedByIdFromCount(E.dec.records[i])) = TRUE
   /\ used' = used \cup {"Dev_DbIdFromCount"}
 
 Other == E.ev \in {"cmd", "tick", "shutdown"} /\ UNCHANGED used
